@@ -30,6 +30,8 @@ func main() {
 		c28(*seed, *n, *ops)
 	case "c36renew":
 		c36renew(*seed, *n)
+	case "c36subs":
+		c36subs(*seed, *n)
 	case "c36expiry":
 		c36expiry(*keys)
 	default:
